@@ -506,7 +506,7 @@ func runC13(cfg *runCfg) (*Summary, error) {
 					other = "RegisterDecoderID(id, B)"
 				}
 				sum.OracleFails = append(sum.OracleFails, OracleFail{What: "two concurrent registrations of one identifier left its id and its key leading to different trees (no serial order of the two does)",
-					Input: map[string]any{"history": "RegisterDecoder(id, key, A) || " + other + "; then DecodeByID(id), Decode(key)", "id": id, "key": key, "pair_number": i},
+					Input:  map[string]any{"history": "RegisterDecoder(id, key, A) || " + other + "; then DecodeByID(id), Decode(key)", "id": id, "key": key, "pair_number": i},
 					Expect: "both decodes run the same tree", Got: fmt.Sprintf("DecodeByID ran %d (err %v), Decode ran %d (err %v)", byID, e1, byKey, e2)})
 				break
 			}
